@@ -61,7 +61,7 @@ def cases(seed, tier, shard, nshards):
     for i in common.sharded(budget(tier)['n'], shard, nshards):
         r = common.rng_for(seed, PROP, i)
         d = docs.gen(r, parts=r.random() < 0.2, labels=True, refs=True, depth=r.choice([1, 2]), maxsec=r.choice([3, 6, 10]), counters=False,
-                     hostile_labels=r.choice([0, 0, 0.5]), hostile_pool=HOSTILE, theorems=r.random() < 0.4, eqnarray=r.random() < 0.3, blocks=(1, 3), cls=r.choice(['article', 'book']), verbatim=False, fonts=False)
+                     hostile_labels=r.choice([0, 0, 0.5]), hostile_pool=HOSTILE, theorems=r.random() < 0.4, eqnarray=r.random() < 0.5, blocks=(1, 3), cls=r.choice(['article', 'book']), verbatim=False, fonts=False)
         # framed references at the very end of the last unit
         labels = list(d['labels'])
         framed = []
@@ -73,6 +73,7 @@ def cases(seed, tier, shard, nshards):
                 for l in [r.choice(labels) for _ in range(r.choice([1, 2]))]:
                     fwd.extend([l] * r.choice([1, 2, 2, 3]))
             picks = [r.choice(labels) for _ in range(min(6, len(labels) + 1))]
+            picks += [l for l in labels if l.startswith('eq')][:3]          # equations and eqnarray rows are always among the referenced objects
             fwd_refs = ' '.join('RfA%dz \\ref{%s} RfB%dz' % (k, l, k) for k, l in enumerate(fwd))
             src_refs = ' '.join('RfA%dz \\ref{%s} RfB%dz' % (k + len(fwd), l, k + len(fwd)) for k, l in enumerate(picks))
             framed = fwd + picks
